@@ -97,11 +97,7 @@ func obligationScript(ob *Obligation, wantModel bool) string {
 				qf = append(qf, a)
 			}
 		}
-		saved := theU.extraAxioms
-		theU.extraAxioms = ""
-		script := theU.Script(logicPrelude+"; vacuity guard (quantifier-free part)\n", qf, nil, false)
-		theU.extraAxioms = saved
-		return script
+		return theU.Script(logicPrelude+"; vacuity guard (quantifier-free part)\n", qf, nil, false)
 	}
 	return theU.Script(logicPrelude, as, ob.Goal, wantModel)
 }
